@@ -1095,8 +1095,19 @@ def origins(prog: Program, fi: FuncInfo, expr: ast.AST | None, node: Node, _seen
         if not defs:
             f = fi.parent
             while f is not None:
-                if expr.id in prog.flow(f).defs_of_var:
-                    return frozenset({("free", expr.id)})
+                pf = prog.flow(f)
+                if expr.id in pf.defs_of_var:
+                    # a closure variable that the enclosing function binds once to (a copy of) one of its own variables
+                    # is that variable: settings_width = width ... def inner(): use(settings_width)
+                    name = expr.id
+                    for _ in range(4):
+                        ds = [d for d in pf.defs if d.var == name]
+                        if len(ds) == 1 and ds[0].kind == "assign" and isinstance(ds[0].value, ast.Name) and ds[0].value.id != name \
+                                and ds[0].value.id in pf.defs_of_var and len([d for d in pf.defs if d.var == ds[0].value.id]) == 1:
+                            name = ds[0].value.id
+                        else:
+                            break
+                    return frozenset({("free", name)})
                 f = f.parent
             r = prog.repo.lookup(expr.id, fi.module, fi)
             if r is None:
